@@ -27,7 +27,7 @@ ASSUMPTIONS = [
 ]
 
 ROOT = os.path.dirname(os.path.dirname(os.path.dirname(os.path.abspath(__file__))))
-ALPHABET = ["gamA", "gamB", "finA", "finB", "finC", "finD", "trig_exact", "trig_rounded", "trig_lag", "cat", "cat_transformed", "ifs", "inv", "inv9", "fail", "sens"]
+ALPHABET = ["catif", "cat3", "gamA", "gamB", "finA", "finB", "finC", "finD", "trig_exact", "trig_rounded", "trig_lag", "cat", "cat_transformed", "ifs", "inv", "inv9", "fail", "sens"]
 from ..c20ops import PERM_PROGS, CLI_GROUPS
 
 PERMS = ["perm_%s_%d" % (k, i) for k in PERM_PROGS for i in range(6)]
